@@ -103,7 +103,13 @@ impl C08 {
             Some(x) => x,
             None => {
                 let t = r.range(0, 5);
-                (gen_ll(r, 6, 3, t), t)
+                if r.chance(1, 10) {
+                    // long segments (more than 16 elements)
+                    ctx.class("segments_up_to_24");
+                    (gen_ll(r, 5, 24, t.max(1)), t.max(1))
+                } else {
+                    (gen_ll(r, 6, 3, t), t)
+                }
             }
         };
         let tb = if r.chance(3, 4) { ta } else { r.range(0, 5) };
@@ -442,6 +448,7 @@ impl Monitor for C08 {
             ("class:ctor_reject", 50),
             ("class:operations_accept", 20),
             ("class:operations_reject", 20),
+            ("class:segments_up_to_24", 200),
             ("api:flatmap", 200),
             ("api:flatmap_sources", 200),
             ("api:map_indexes", 200),
